@@ -1620,7 +1620,7 @@ func (g *FuncGen) runGhostAt(callee string, ord int, env *Env, results []Val) {
 		if g.ghostState != nil {
 			oldSt = g.ghostState
 		}
-		genv := &Env{g: g, vars: map[string]Val{}, cur: gst, old: oldSt, pkg: g.pkg}
+		genv := &Env{g: g, vars: map[string]Val{}, cur: gst, old: oldSt, pkg: g.pkg, freshBase: g.entry}
 		for k, v := range g.params {
 			genv.vars[k] = v
 		}
@@ -1630,12 +1630,24 @@ func (g *FuncGen) runGhostAt(callee string, ord int, env *Env, results []Val) {
 			if positionalName.MatchString(k) {
 				continue
 			}
-			if pv, isParam := g.params[k]; isParam && pv.T != v.T {
-				if genv.ambig == nil {
-					genv.ambig = map[string]bool{}
+			// (only when the two have different types: a receiver or argument passed straight through keeps its
+			// name and its meaning, even if the caller holds it in a captured cell)
+			clash := false
+			if pv, isParam := g.params[k]; isParam {
+				clash = pv.T != v.T && !(pv.GT != nil && v.GT != nil && types.Identical(pv.GT, v.GT))
+			} else if nbs, isLocal := g.names[k]; isLocal {
+				clash = true
+				for _, nb := range nbs {
+					lt := nb.val.Type()
+					if nb.isAddr {
+						lt = derefType(lt)
+					}
+					if v.GT != nil && types.Identical(lt, v.GT) {
+						clash = false
+					}
 				}
-				genv.ambig[k] = true
-			} else if _, isLocal := g.names[k]; isLocal && !isParam {
+			}
+			if clash {
 				if genv.ambig == nil {
 					genv.ambig = map[string]bool{}
 				}
